@@ -96,6 +96,31 @@ pub fn run(_tier: &str) -> String {
     one::<()>("()", &mut acc);
     one::<str>("str", &mut acc);
     one::<[u8]>("[u8]", &mut acc);
+    // several handles with different parameters inside one schema must share one definition named `Remote`
+    #[derive(schemars::JsonSchema)]
+    #[allow(dead_code)]
+    struct Holder {
+        a: Remote<'static, Tg>,
+        b: Remote<'static, dyn tiface::Tif<Error = StdError>>,
+        c: Remote<'static, ()>,
+        d: Remote<'static, Gen<u32>>,
+        e: Option<Remote<'static, dyn tifa::TifA<Error = (), Param = String, Other = ()>>>,
+    }
+    let holder = serde_json::to_value(schema_for!(Holder)).unwrap();
+    let defs: Vec<String> = holder.get("definitions").and_then(|d| d.as_object()).map(|o| o.keys().filter(|k| k.starts_with("Remote")).cloned().collect()).unwrap_or_default();
+    if defs != vec!["Remote".to_string()] {
+        acc.viol.push(json!({"what": "a schema holding handles with different type parameters gets several Remote definitions", "definitions": defs}));
+    }
+    let ids: std::collections::BTreeSet<String> = [
+        <Remote<'static, Tg> as schemars::JsonSchema>::schema_id().to_string(),
+        <Remote<'static, ()> as schemars::JsonSchema>::schema_id().to_string(),
+        <Remote<'static, str> as schemars::JsonSchema>::schema_id().to_string(),
+        <Remote<'static, dyn tiface::Tif<Error = StdError>> as schemars::JsonSchema>::schema_id().to_string(),
+        <Remote<'static, Gen<String>> as schemars::JsonSchema>::schema_id().to_string(),
+    ].into_iter().collect();
+    if ids.len() != 1 {
+        acc.viol.push(json!({"what": "schema id depends on the type parameter", "ids": ids}));
+    }
     let distinct: std::collections::BTreeSet<&String> = acc.schemas.values().collect();
     if distinct.len() != 1 {
         acc.viol.push(json!({"what": "schema depends on the type parameter", "schemas": acc.schemas}));
